@@ -38,6 +38,17 @@ static ClientCb* ccb[NC + 1];
 static long acc[NC + 1];                 // bytes accepted so far (position of the next byte to write)
 static long pacc[NC + 1];                // bytes the peer has sent so far
 static int inwrite_c = 0, inwrite_n = 0; // a Client::write call is in progress
+// ---- listeners (accept connections from harness sockets) and establishers (connect to harness listening sockets)
+enum { NLS = 2, NES = 2, NH = 4 };
+struct ListenerCb;
+struct EstablisherCb;
+static Server::Listener* lst[NLS + 1];
+static int lstfd[NLS + 1];
+static ListenerCb* lcb[NLS + 1];
+static Server::Establisher* est[NES + 1];
+static int estfd[NES + 1];
+static EstablisherCb* ecb[NES + 1];
+static Socket* hs[NH + 1];                // harness-side sockets: connectors to a listener, or listening sockets for establishers
 // ---- timers
 struct TimerCb;
 static Server::Timer* tm[NT + 1];
@@ -49,6 +60,15 @@ static char cbq[MAXQ][256]; static int cbqn = 0;                                
 static struct { void* ptr; int fd; } ptrmap[64]; static int nptr = 0;
 
 static int clientOfFd(int fd) { for(int c = 1; c <= NC; ++c) if(cl[c] && clfd[c] == fd) return c; return 0; }
+// object id used in poll events: client c, listener 10 + l, establisher 20 + e, 0 = unknown
+static int objOfFd(int fd)
+{
+  int c = clientOfFd(fd);
+  if(c) return c;
+  for(int l = 1; l <= NLS; ++l) if(lst[l] && lstfd[l] == fd) return 10 + l;
+  for(int e = 1; e <= NES; ++e) if(est[e] && estfd[e] == fd) return 20 + e;
+  return 0;
+}
 static int fdOfPtr(void* p) { for(int i = 0; i < nptr; ++i) if(ptrmap[i].ptr == p) return ptrmap[i].fd; return -1; }
 
 static void ev_begin(const char* op) { j_begin(op); j_int("ln", g_lineno - g_reset_line); }
@@ -137,6 +157,8 @@ extern "C" int epoll_wait(int epfd, struct epoll_event* evs, int maxevents, int 
   if(n < 0) n = 0;
   // step: T nothing | I<c> readable events of client c | O<c>.. writable events of client c | A everything | X only the interrupt
   int wantC = (st[0] == 'I' || st[0] == 'O' || st[0] == 'B') ? st[1] - '0' : 0;
+  if(st[0] == 'L') wantC = 10 + (st[1] - '0');        // L<l>: the listener's readiness (a connection to accept)
+  if(st[0] == 'E') wantC = 20 + (st[1] - '0');        // E<e>: the establisher's readiness (connected or failed)
   int out = 0;
   ev_begin("poll"); j_int("now", vnow); j_int("timeout", timeout); j_str("step", st);
   fputs(",\"ready\":[", g_out);
@@ -145,10 +167,11 @@ extern "C" int epoll_wait(int epfd, struct epoll_event* evs, int maxevents, int 
   {
     if(!tmp[i].data.ptr) { evs[out++] = tmp[i]; continue; }      // the interrupt eventfd is always real
     int fd = fdOfPtr(tmp[i].data.ptr);
-    int c = clientOfFd(fd);
+    int c = objOfFd(fd);
     unsigned keep = 0;
     unsigned inBits = tmp[i].events & (EPOLLIN | EPOLLRDHUP | EPOLLHUP | EPOLLERR), outBits = tmp[i].events & EPOLLOUT;
     if(st[0] == 'A') keep = tmp[i].events;
+    else if(c && c == wantC && (st[0] == 'L' || st[0] == 'E')) keep = tmp[i].events;
     else if(c && c == wantC)
     {
       if(st[0] == 'I' || st[0] == 'B') keep |= inBits;
@@ -192,15 +215,24 @@ struct ClientCb : public Server::Client::ICallback
     // peek: "noread" must be known before reading; actions run after the read
     if(hasActs && strstr(cbq[0], "noread")) g_noread = 1;
     byte buf[64]; usize size = 0; bool r = false;
+    if(!cl[me])
+    {
+      // a read notification for a client the harness has already removed: logged, judged by the trace specification
+      ev_begin("onRead"); j_int("c", me); j_bool("noread", 1); j_bool("r", 0); j_bytes("b", buf, 0); j_int("peek", -3); j_end();
+      return;
+    }
+    // what the kernel holds for this client right now: 1 data, 0 end of stream, -1 nothing, -2 error
+    char pk; ssize_t pr = ::recv(clfd[me], &pk, 1, MSG_PEEK | MSG_DONTWAIT);
+    int peek = pr > 0 ? 1 : pr == 0 ? 0 : (errno == EAGAIN || errno == EWOULDBLOCK) ? -1 : -2;
     if(!g_noread) r = cl[me]->read(buf, sizeof(buf), size);
-    ev_begin("onRead"); j_int("c", me); j_bool("noread", g_noread); j_bool("r", r); j_bytes("b", buf, g_noread ? 0 : (long)size); j_end();
+    ev_begin("onRead"); j_int("c", me); j_bool("noread", g_noread); j_bool("r", r); j_bytes("b", buf, g_noread ? 0 : (long)size); j_int("peek", peek); j_end();
     pop_actions();
   }
   virtual void onWrite()
   {
     int me = c;
     g_cb_self_client = me; g_cb_self_timer = 0;
-    ev_begin("onWrite"); j_int("c", me); j_int("sb", (long long)cl[me]->getSendBufferSize()); j_end();
+    ev_begin("onWrite"); j_int("c", me); j_int("sb", cl[me] ? (long long)cl[me]->getSendBufferSize() : -1); j_end();
     pop_actions();
   }
   virtual void onClosed()
@@ -211,6 +243,49 @@ struct ClientCb : public Server::Client::ICallback
     if(cbqn > 0 && strstr(cbq[0], "keep")) g_keep = 1;
     pop_actions();
     if(!g_keep && cl[me]) { Server::Client* p = cl[me]; cl[me] = 0; srv->remove(*p); ev_begin("remove"); j_int("c", me); j_str("in", "onClosed"); j_end(); }
+  }
+};
+static int free_client_slot() { for(int c = 1; c <= NC; ++c) if(!cl[c]) return c; return 0; }
+struct ListenerCb : public Server::Listener::ICallback
+{
+  int l;
+  virtual Server::Client::ICallback* onAccepted(Server::Client& client, uint32, uint16)
+  {
+    int me = l;
+    g_cb_self_client = 0; g_cb_self_timer = 0;
+    int reject = cbqn > 0 && strstr(cbq[0], "reject") != 0;
+    int c = reject ? 0 : free_client_slot();
+    if(c) { cl[c] = &client; clfd[c] = (int)client.getSocket().getFileDescriptor(); acc[c] = pacc[c] = 0; }
+    ev_begin("onAccepted"); j_int("l", me); j_int("c", c); j_end();
+    pop_actions();
+    return (c && cl[c]) ? ccb[c] : 0;      // a null callback makes the server drop the client (also when it was removed just now)
+  }
+};
+struct EstablisherCb : public Server::Establisher::ICallback
+{
+  int e;
+  virtual Server::Client::ICallback* onConnected(Server::Client& client)
+  {
+    int me = e;
+    g_cb_self_client = 0; g_cb_self_timer = 0;
+    int c = free_client_slot();
+    if(c) { cl[c] = &client; clfd[c] = (int)client.getSocket().getFileDescriptor(); acc[c] = pacc[c] = 0; }
+    estfd[me] = -1;                        // the establisher's socket now belongs to the client
+    ev_begin("onConnected"); j_int("e", me); j_int("c", c); j_end();
+    int keep = cbqn > 0 && strstr(cbq[0], "keep") != 0;
+    pop_actions();
+    if(!keep && est[me]) { Server::Establisher* p = est[me]; est[me] = 0; srv->remove(*p); ev_begin("rmconn"); j_int("e", me); j_str("in", "cb"); j_end(); }
+    return (c && cl[c]) ? ccb[c] : 0;
+  }
+  virtual void onAbolished()
+  {
+    int me = e;
+    g_cb_self_client = 0; g_cb_self_timer = 0;
+    estfd[me] = -1;
+    ev_begin("onAbolished"); j_int("e", me); j_end();
+    int keep = cbqn > 0 && strstr(cbq[0], "keep") != 0;
+    pop_actions();
+    if(!keep && est[me]) { Server::Establisher* p = est[me]; est[me] = 0; srv->remove(*p); ev_begin("rmconn"); j_int("e", me); j_str("in", "cb"); j_end(); }
   }
 };
 struct TimerCb : public Server::Timer::ICallback
@@ -301,6 +376,9 @@ static void exec_actions(char* list)
     else if(!strcmp(w[0], "suspend") && n >= 2) op_susp(atoi(w[1]), 1, "cb");
     else if(!strcmp(w[0], "resume") && n >= 2) op_susp(atoi(w[1]), 0, "cb");
     else if(!strcmp(w[0], "interrupt")) do_interrupt("cb");
+    else if(!strcmp(w[0], "rmlisten") && n >= 2) { int l = atoi(w[1]); if(l >= 1 && l <= NLS && lst[l]) { Server::Listener* p = lst[l]; lst[l] = 0; srv->remove(*p); ev_begin("rmlisten"); j_int("l", l); j_str("in", "cb"); j_end(); } }
+    else if(!strcmp(w[0], "rmconn") && n >= 2) { int e = atoi(w[1]); if(e >= 1 && e <= NES && est[e]) { Server::Establisher* p = est[e]; est[e] = 0; srv->remove(*p); ev_begin("rmconn"); j_int("e", e); j_str("in", "cb"); j_end(); } }
+    else if(!strcmp(w[0], "reject")) {}
     else if(!strcmp(w[0], "noread") || !strcmp(w[0], "keep") || !strcmp(w[0], "nop")) {}
   }
 }
@@ -309,6 +387,8 @@ void drv_init(int, char**)
 {
   for(int c = 1; c <= NC; ++c) { ccb[c] = new ClientCb; ccb[c]->c = c; }
   for(int t = 1; t <= NT; ++t) { tcb[t] = new TimerCb; tcb[t]->t = t; }
+  for(int l = 1; l <= NLS; ++l) { lcb[l] = new ListenerCb; lcb[l]->l = l; }
+  for(int e = 1; e <= NES; ++e) { ecb[e] = new EstablisherCb; ecb[e]->e = e; }
   g_op_timeout = 20;
 }
 void drv_fini()
@@ -317,6 +397,9 @@ void drv_fini()
   delete srv; srv = 0;
   for(int c = 1; c <= NC; ++c) { cl[c] = 0; delete peer[c]; peer[c] = 0; clfd[c] = -1; }
   for(int t = 1; t <= NT; ++t) tm[t] = 0;
+  for(int l = 1; l <= NLS; ++l) { lst[l] = 0; lstfd[l] = -1; }
+  for(int e = 1; e <= NES; ++e) { est[e] = 0; estfd[e] = -1; }
+  for(int h = 1; h <= NH; ++h) { delete hs[h]; hs[h] = 0; }
   nptr = 0; sendQn = 0; cbqn = 0; nsteps = stepi = 0;
 }
 void drv_reset()
@@ -377,6 +460,65 @@ void drv_apply(const char* op)
     if(c < 1 || c > NC || !peer[c] || !peer[c]->isOpen()) { ev_begin("nop"); j_end(); return; }
     peer[c]->close();
     ev_begin("pclose"); j_int("c", c); j_end();
+  }
+  else if(!strcmp(op, "listen"))
+  {
+    int l = (int)tok_int();
+    if(l < 1 || l > NLS || lst[l]) { ev_begin("nop"); j_end(); return; }
+    lst[l] = srv->listen(Socket::loopbackAddress, 0, *lcb[l]);
+    lstfd[l] = lst[l] ? (int)((Socket*)lst[l])->getFileDescriptor() : -1;
+    ev_begin("listen"); j_int("l", l); j_bool("ok", lst[l] != 0); j_end();
+  }
+  else if(!strcmp(op, "rmlisten"))
+  {
+    int l = (int)tok_int();
+    if(l < 1 || l > NLS || !lst[l]) { ev_begin("nop"); j_end(); return; }
+    Server::Listener* p = lst[l]; lst[l] = 0;
+    srv->remove(*p);
+    ev_begin("rmlisten"); j_int("l", l); j_str("in", "top"); j_end();
+  }
+  else if(!strcmp(op, "pconnect"))
+  {
+    // a harness socket connects to listener l (the connection is then waiting to be accepted)
+    int h = (int)tok_int(); int l = (int)tok_int();
+    uint32 ip; uint16 port;
+    if(h < 1 || h > NH || hs[h] || l < 1 || l > NLS || !lst[l] || !((Socket*)lst[l])->getSockName(ip, port)) { ev_begin("nop"); j_end(); return; }
+    hs[h] = new Socket;
+    bool ok = hs[h]->open() && hs[h]->connect(Socket::loopbackAddress, port);
+    ev_begin("pconnect"); j_int("h", h); j_int("l", l); j_bool("ok", ok); j_end();
+  }
+  else if(!strcmp(op, "hlisten"))
+  {
+    int h = (int)tok_int();
+    if(h < 1 || h > NH || hs[h]) { ev_begin("nop"); j_end(); return; }
+    hs[h] = new Socket;
+    bool ok = hs[h]->open() && hs[h]->setReuseAddress() && hs[h]->bind(Socket::loopbackAddress, 0) && hs[h]->listen();
+    ev_begin("hlisten"); j_int("h", h); j_bool("ok", ok); j_end();
+  }
+  else if(!strcmp(op, "hclose"))
+  {
+    int h = (int)tok_int();
+    if(h < 1 || h > NH || !hs[h]) { ev_begin("nop"); j_end(); return; }
+    delete hs[h]; hs[h] = 0;
+    ev_begin("hclose"); j_int("h", h); j_end();
+  }
+  else if(!strcmp(op, "conn"))
+  {
+    // the server connects (asynchronously) to the harness listening socket h; refuse=1: to a port nobody listens on
+    int e = (int)tok_int(); int h = (int)tok_int();
+    uint32 ip; uint16 port = 0;
+    if(e < 1 || e > NES || est[e] || h < 1 || h > NH || !hs[h] || !hs[h]->getSockName(ip, port)) { ev_begin("nop"); j_end(); return; }
+    est[e] = srv->connect(Socket::loopbackAddress, port, *ecb[e]);
+    estfd[e] = est[e] ? (int)((Socket*)est[e])->getFileDescriptor() : -1;
+    ev_begin("conn"); j_int("e", e); j_int("h", h); j_bool("ok", est[e] != 0); j_end();
+  }
+  else if(!strcmp(op, "rmconn"))
+  {
+    int e = (int)tok_int();
+    if(e < 1 || e > NES || !est[e]) { ev_begin("nop"); j_end(); return; }
+    Server::Establisher* p = est[e]; est[e] = 0;
+    srv->remove(*p);
+    ev_begin("rmconn"); j_int("e", e); j_str("in", "top"); j_end();
   }
   else if(!strcmp(op, "oncb"))
   {
